@@ -3,14 +3,17 @@
 EXTENDS VersionedTree
 CONSTANTS SimDepth,      \* length of the simulated histories
           CoverDepth,    \* transition cover: only states whose shortest history is <= CoverDepth
+          ObsCover,      \* transition cover: include the Get / Has / ByIndex observer instances
           RangeCover     \* transition cover: include the Range observer instances
 
 \* Transition cover: with VIEW view every distinct abstract state (tree SHAPES included)
 \* is expanded once, from the first (shortest, BFS) history that reached it, and every
 \* outgoing transition is printed as that history extended by one step.
+\* (every mutation's history entry carries the whole expected state, which the harness compares
+\* through all observers; the explicit observer instances add the bounded range reads)
 CoverObservation ==
-    \/ \E t \in 0..MaxVersion, k \in KeyS : Get(t, k) \/ Has(t, k)
-    \/ \E t \in 0..MaxVersion, i \in -1..NK : ByIndex(t, i)
+    \/ ObsCover /\ \E t \in 0..MaxVersion, k \in KeyS : Get(t, k) \/ Has(t, k)
+    \/ ObsCover /\ \E t \in 0..MaxVersion, i \in -1..NK : ByIndex(t, i)
     \/ RangeCover /\ \E t \in 0..MaxVersion, lo \in 0..NK, hi \in 0..NK, asc \in BOOLEAN, incl \in BOOLEAN :
           Range(t, lo, hi, asc, incl)
     \/ VersionsObs
